@@ -3,7 +3,7 @@
     Theory/BoxSweep.v. *)
 Require Import SB.Model.Base SB.Model.Geom SB.Model.Fragment SB.Model.Merge SB.Model.FragBuf SB.Model.Endorse
   SB.Theory.RectTheory SB.Theory.LineMergeTheory SB.Theory.ShiftTheory SB.Theory.ShiftFrag SB.Theory.ShiftBuf SB.Theory.ShiftEndorse
-  SB.Theory.SepTheory SB.Theory.SepOrder SB.Theory.BoxSweep.
+  SB.Theory.SepTheory SB.Theory.SepOrder SB.Theory.BoxSweep SB.Theory.BoxExtras.
 
 (** Soundness.  [is_rect] answers yes only for exactly four fragments of which four (by index)
     are lines that form the outline of their bounding box: a non-degenerate box whose top,
@@ -71,8 +71,20 @@ Theorem C05_boxes_are_recognised_anywhere_in_context :
     exists sp, filter (fsside inA) acc = [FS (shift_span k n sp) (shift_frag k n (FRect (expected s w h)))]
                /\ filter (cside inA) groups = [].
 Proof. exact box_recognised_in_context. Qed.
-(** Larger boxes (to 60 x 30), sides with dashed stretches and interior text are decided by the
-    correspondence and the oracle of this check. *)
+(** With plain text inside: a two-letter label at every interior position of the boxes of the eight styles with 2..5 x 1..2
+    interior cells (also flush against a wall) - exactly the expected rectangle and the label as text in its cell. *)
+Theorem C05_box_with_text_inside :
+  forall s w h x y, In s styles -> In w [2; 3; 4; 5]%nat -> In h [1; 2]%nat -> (1 <= x < w)%nat -> (1 <= y <= h)%nat ->
+    label_chk s w h x y = true.
+Proof. exact box_with_label. Qed.
+(** Sides with dashed stretches: rows a..b of the left, the right or both sides of a sharp box (1 or 3 x 2..5 interior cells)
+    written with ':' or '!', every 1 <= a <= b <= h: exactly one rectangle of the expected position and size, dashed.
+    (With a single interior row a lone ':' between two corners is text: observation O2 of DESIGN.md.) *)
+Theorem C05_box_with_dashed_stretch :
+  forall w h side ch a b, In w [1; 3]%nat -> In h [2; 3; 4; 5]%nat -> In ch [58; 33] -> (1 <= a <= b)%nat -> (b <= h)%nat ->
+    stretch_chk w h side ch a b = true.
+Proof. exact box_with_dashed_stretch. Qed.
+(** Larger boxes (to 60 x 30) are decided by the correspondence and the oracle of this check. *)
 Example C05_nonvacuous :
   is_rect [FLine (Line (P 20 40) (P 140 40) false); FLine (Line (P 20 40) (P 20 200) false);
            FLine (Line (P 140 40) (P 140 200) false); FLine (Line (P 20 200) (P 140 200) false)] = Ok true.
